@@ -19,6 +19,7 @@ DAILY_PROFILES = {
     "legacy-dev-splits": ("legacy", {"developer_mode": True, "silent_developer_mode": True,
                                      "split_selection": {"allow_separate_weekday_weekend": True, "allow_separate_summer": True, "allow_separate_winter": True, "allow_separate_shoulder": True}}),
 }
+OCC_NAME = "Occupancy Level"
 HOURLY_PROFILES = {
     "default": {},
     "robust": {"scaling_method": "robustscaler"},
@@ -27,8 +28,9 @@ HOURLY_PROFILES = {
     "adaptive": {"elasticnet": {"adaptive_weights": True, "adaptive_weight_max_iter": 5, "adaptive_weight_tol": 1e-4}},
     "clusters6": {"temporal_cluster": {"n_cluster_upper": 6, "recluster_count": 1}},
     # supplemental time-series column named in the settings and carried by the data (features not fixed / fixed explicitly)
-    "supp": {"supplemental_time_series_columns": ["occupancy"]},
-    "supp-explicit": {"train_features": ["temperature"], "supplemental_time_series_columns": ["occupancy"]},
+    # (a column name as feeds deliver them: mixed case, with a space)
+    "supp": {"supplemental_time_series_columns": [OCC_NAME]},
+    "supp-explicit": {"train_features": ["temperature"], "supplemental_time_series_columns": [OCC_NAME]},
 }
 
 
@@ -137,7 +139,7 @@ class Family:
             tdf, bdf, _ = billing_reads(rng, tz=tz, start=start or "2018-01-01", n_periods=max(3, days // 30), kind=kind, noise=noise)
             return tdf.join(bdf).iloc[:-1]
         return synth_hourly(tz=tz, start=start or "2018-01-01", days=days, seed=rng, ghi=self.ghi, noise=noise,
-                            irregular=self.irregular, occupancy=self.occupancy)
+                            irregular=self.irregular, occupancy=self.occupancy, occupancy_name=OCC_NAME)
 
     def baseline_data(self, df):
         B = self.classes()[1]
@@ -147,7 +149,7 @@ class Family:
         if self.kind in ("daily", "billing"):
             return daily_reporting_df(rng, tz, start, days, with_observed=with_observed, mean=mean)
         df = synth_hourly(tz=tz, start=start, days=days, seed=rng, ghi=self.ghi, noise=0.05, mean=mean if mean is not None else 55.0,
-                          irregular=self.irregular, occupancy=self.occupancy)
+                          irregular=self.irregular, occupancy=self.occupancy, occupancy_name=OCC_NAME)
         if not with_observed:
             df = df.drop(columns=["observed"])
         return df
